@@ -77,7 +77,7 @@ def expected_form(table, loc, rule, forms, nkey):
 
 def parser_stage(res, tier, seed, table):
     rng = rng_for(seed, "C05", "P")
-    nproj = 40 if tier == "quick" else 400
+    nproj = 40 if tier == "quick" else 2000
     projs, metas = [], []
     for _ in range(nproj):
         locs = rng.sample(LOCALES, rng.randint(2, 5))
@@ -180,7 +180,7 @@ def negative_stage(res, seed):
 
 def e2e_stage(res, tier, seed, table):
     rng = rng_for(seed, "C05", "E")
-    ncrates = 1 if tier == "quick" else 4
+    ncrates = 1 if tier == "quick" else 8
     crates = []
     counts_arr = ", ".join("%du64" % n for n in RT_COUNTS)
     for ci in range(ncrates):
